@@ -7,8 +7,16 @@
     encryption is on and a password is set, unpack(pack) identity).
 (b) crash enumeration of WalletStorage.write over crashfs: every prefix of the operation log x every
     persisted prefix of the pending directory operations x every torn-write prefix of un-synced data.
+(b') state carried across saves: every crash image of a growing save (temp file torn at every length) is
+    restarted under the same pid and a complete, smaller save is made on top of what the dead save left
+    behind; plus static scenarios with a stale temp file shorter than / as long as / longer than the new
+    content.  (crashfs's open() honours `opener=` and the O_* flags that reach os.open.)
 (c) deterministic sweep of many wrong passwords against one locked wallet (drives the valid-padding
     branch, observed with an independent AES-CBC reference) and against one packed sync blob.
+(c') the wrong passwords that get furthest are *searched*: the independent reference screens pw0..pw15999999
+    for passwords under which the one-block seed ciphertext of account set `seed-short` decrypts to valid
+    padding AND valid UTF-8 (about 1 in 1.5 million; only the private key then exposes them); every hit goes
+    to the real unlock.  Hits are cached under /verif/.cache/c13 (pure function of the ciphertext).
 """
 import base64
 import hashlib
@@ -1343,12 +1351,12 @@ def deep_item(item, res):
             field = acct.seed if seeded else acct.private_key_string
             hits = cached_hits(field, lo, hi, seeded, res)
             if variant == 'memory':
-                res.count('deep_candidates', hi - lo)
-                res.count('evaluations', hi - lo)
+                res.count('deep_candidates', hi - lo)        # screened by the reference only, not "evaluations"
             before = world.observe()
             for i in hits:
                 pw = f'pw{i}'
                 res.count('deep_unlock_attempts')
+                res.count('evaluations')
                 res.witness('wrong_password_seed_decrypts_to_valid_text' if seeded else 'wrong_password_key_padding_valid')
                 res.distinct_add('nontrivial', ('deep', kind, i))
                 bad = wrong_password_attempt(env, world, before, pw)
@@ -1393,6 +1401,8 @@ def run(ctx):
         for scenario in SCENARIOS:
             for journal in (True, False):
                 items.append(('crash', kind, scenario, journal, 'all', rng_seed))
+    carry_kinds = ['seeded', 'two'] if quick else crash_kinds
+    items += [('carry', kind, journal, rng_seed) for kind in carry_kinds for journal in (True, False)]
     # (a)
     pws = QUICK_PW if quick else list(range(len(PASSWORDS)))
     pairs = [(k, pi, depth) for k in DESIGN_KINDS for pi in pws]
@@ -1407,6 +1417,12 @@ def run(ctx):
     n_unpack = 320 if quick else 4096
     ustep = 20 if quick else 32
     items += [('unpack', 'seeded', lo, lo + ustep, rng_seed) for lo in range(0, n_unpack, ustep)]
+    # (c') searched wrong passwords (results cached under .cache/c13; IV stream fixed, see DEEP_RNG_SEED)
+    n_deep_seed, n_deep_key, dstep = 16_000_000, (200_000 if quick else 2_000_000), 500_000
+    items += [('deep', 'seed-short', lo, lo + dstep) for lo in range(0, n_deep_seed, dstep)]
+    items += [('deep', 'xprv', lo, min(lo + dstep, n_deep_key)) for lo in range(0, n_deep_key, dstep)]
+    items += [('sweep', 'seed-short', variant, lo, lo + step, rng_seed) for variant in ('memory', 'reloaded')
+              for lo in range(0, n_unlock, step)]
     ctx.pmap(work, items)
 
     ctx.meta.update(
@@ -1420,12 +1436,20 @@ def run(ctx):
               f'with more than {FULL_PRODUCT_LIMIT} images - several files un-synced at once, which only mutants '
               'produce - varies only the file the recovery reads, the read set being verified on every image); '
               'distinct = (crash point, version read back, dir-ops persisted, wallet file length). '
+              "(b') every crash image of a growing save (every torn length of the temp file) is restarted under the "
+              'same pid and a complete, smaller save is made on it: the file must then be exactly the saved wallet; for '
+              'the images whose torn lengths are 0, 1 or a multiple of 256 the second save is crash-enumerated too. '
               '(c) passwords pw0..pwN against one '
-              'locked wallet per (account set, in-memory | reloaded); pw0..pwN against one packed blob.'),
+              'locked wallet per (account set, in-memory | reloaded); pw0..pwN against one packed blob. '
+              f"(c') the stream pw0..pw{n_deep_seed - 1} is searched with the independent AES reference for wrong passwords "
+              'under which the one-block seed ciphertext of account set seed-short decrypts to valid padding and valid '
+              f'UTF-8 (and pw0..pw{n_deep_key - 1} for valid padding of the key-only wallet\'s private key); every hit '
+              'is handed to the real unlock on the in-memory and the reloaded wallet.'),
         exhaustive=True,
         bounds={'depth': depth, 'depth_extra_account_sets': depth - 1 if quick else depth, 'passwords': len(pws), 'account_sets': len(DESIGN_KINDS) + len(EXTRA_KINDS),
                 'pairs': len(pairs), 'crash_account_sets': len(crash_kinds), 'crash_scenarios': len(SCENARIOS),
-                'fs_modes': 2, 'torn_writes': 'every byte', 'sweep_unlock': n_unlock, 'sweep_unpack': n_unpack},
+                'fs_modes': 2, 'torn_writes': 'every byte', 'sweep_unlock': n_unlock, 'sweep_unpack': n_unpack,
+                'carry_account_sets': len(carry_kinds), 'deep_search_seed': n_deep_seed, 'deep_search_key': n_deep_key},
         bound_completed=(f"depth {depth}; deepest new state at depth {ctx.res.maxes.get('max_depth_new_state')}; state "
                          f"space closed (no new state at the last level) for "
                          f"{ctx.res.witnesses.get('state_space_closed_before_depth_bound', 0)}/{len(pairs)} "
@@ -1464,7 +1488,10 @@ def run(ctx):
         ],
         expected_witnesses=['wrong_password_refused_wallet_unchanged', 'unlock_restored_secrets',
                             'reload_of_encrypted_file', 'pack_unpack_identity', 'wrong_password_valid_padding',
-                            'file_scanned_while_encryption_enforced',
+                            'file_scanned_while_encryption_enforced', 'wrong_password_seed_decrypts_to_valid_text',
+                            'wrong_password_key_padding_valid', 'second_save_over_stale_temp_longer_than_new_content',
+                            'second_save_over_stale_temp_shorter_than_new_content',
+                            'second_save_over_stale_temp_equal_than_new_content', 'second_save_crash_enumerated',
                             'sweep_wallet_still_unlocks', 'crash_with_rename_pending', 'crash_with_unsynced_data',
                             'previous_version_survives_crash', 'new_version_durable_before_save_returned'],
     )
@@ -1533,6 +1560,52 @@ def replay(data):
             return violated, '\n'.join(log)
         finally:
             env.close()
+    elif mode == 'carry':
+        env = Env(data.get('rng_seed', 0))
+        try:
+            fs1, versions, spans, initial = crash_scenario(env, data['kind'], 'overwrite', data['journal'])
+            log.append('first save (killed):')
+            log.extend(f'  {op!r}' for op in fs1.log)
+            try:
+                img = fs1.crash_point(data['choice1']['k']).image(data['choice1'])
+            except (IndexError, KeyError, AssertionError) as e:
+                raise RuntimeError(f'replay diverged: the recorded crash image does not exist on this tree ({e})')
+            log.append(img.describe())
+            stale = img.read(f'{PATH}.tmp.{fs1.pid}')
+            log.append(f'on disk after the kill: wallet file {len(img.read(PATH) or b"")} bytes, left-over temp file '
+                       f'{None if stale is None else len(stale)} bytes; restart with pid {fs1.pid}, load, smaller save')
+            findings, info = carry_second_save(env, img, versions, enumerate_crashes=data.get('choice2') is not None)
+            log.append(f'second save: {info}')
+            for outcome, phase, choice2, text in findings:
+                log.append(f'VIOLATED ({phase}): {text}')
+            return bool(findings), '\n'.join(log)
+        finally:
+            env.close()
+    elif mode == 'deep':
+        i = data['i']
+        if i >= 0:
+            env = Env(DEEP_RNG_SEED)
+            try:
+                roles = {'p': SWEEP_KEY, 'q': 'unused-q', 'w': 'unused-w'}
+                world = env.build(data['kind'])
+                for op in (['encrypt:p', 'lock'] if data['variant'] == 'memory' else ['encrypt:p', 'reload']):
+                    world.apply(op, roles, probes=False)
+                acct = world.w.accounts[0]
+                pw = f'pw{i}'
+                log.append(f"accounts={data['kind']} ({data['variant']}), wallet encrypted with {SWEEP_KEY!r}, unlock({pw!r})")
+                for name, ct in (('seed', acct.seed), ('private_key', acct.private_key_string)):
+                    if ct:
+                        log.append(f'  reference: {name} ciphertext under {pw!r}: padding valid={ref_padding_valid(pw, ct)}, '
+                                   f'padding+UTF-8 valid={ref_decrypts(pw, ct)}')
+                before = world.observe()
+                bad = wrong_password_attempt(env, world, before, pw)
+                log.append(f'  after: locked={world.w.is_locked} seed={acct.seed[:40]!r} encrypted={acct.encrypted}')
+                if bad is not None:
+                    log.append(f'VIOLATED: {bad.what}')
+                return bad is not None, '\n'.join(log)
+            finally:
+                env.close()
+        deep_item(('deep', data['kind'], data['lo'], data['hi']), res)
     for v in res.violations.values():
         log.append(v['what'])
     return bool(res.violations), '\n'.join(log)
